@@ -409,6 +409,9 @@ where
         // the new value replaces whatever was written before (entries of an earlier dictionary
         // that the new one does not have must not survive)
         self.changes.insert(old.id, (primitive, r.gen));
+        // typed loads and decoded stream data of this object may be cached: drop them
+        self.cache.clear();
+        self.stream_cache.clear();
         let rc = Shared::new(obj);
         
         Ok(RcRef::new(r, rc))
